@@ -27,6 +27,13 @@ func replayWire(r *vk.Run, c map[string]any) (bool, error) {
 		}
 		casePgMsg(r, byte(int(c["t"].(float64))), in, "replay")
 		return true, nil
+	case "sqllex":
+		in, err := hex.DecodeString(c["in"].(string))
+		if err != nil {
+			return true, err
+		}
+		caseSqlLex(r, string(in), "replay")
+		return true, nil
 	case "pgframe":
 		in, err := hex.DecodeString(c["in"].(string))
 		if err != nil {
